@@ -355,6 +355,13 @@ class Interp:
             # early - break, next() - never sees it), as in Python
             out = GenResult()
             env.vars["__yield__"] = out
+            hook_ = self.__dict__.pop("_pending_cm_hook", None)
+            if hook_ is not None:
+                # called as the context manager of a with statement: the with-body runs at the yield (continuation), so that an
+                # exception of the body is raised there - inside the generator's try/finally/except - as contextlib does it
+                env.vars["__cm_hook__"] = hook_
+                self.exec_block(func.node.body, env)
+                return out
             try:
                 self.exec_block(func.node.body, env)
             except _Return:
@@ -371,6 +378,63 @@ class Interp:
             self.tb_here(e_.value, env)
             raise
         return None
+
+    def _with_repo_contextmanager(self, s, env):
+        """`with f(...) as x: BODY` where f is a @contextmanager generator function of the repo (first item): interpret the
+        generator with BODY as the continuation of its yield.  -> True if the statement was handled this way."""
+        it = s.items[0]
+        ce = it.context_expr
+        if not isinstance(ce, ast.Call):
+            return False
+        try:
+            scope = env.func
+            fs = self.m.callee_funcs(scope, ce) if isinstance(scope, Func) and ce in scope.own_calls() else set()
+        except Exception:
+            fs = set()
+        if len(fs) != 1:
+            return False
+        f = next(iter(fs))
+        if not f.is_contextmanager or f.name in self.stubs:
+            return False
+        rest = s if len(s.items) == 1 else None
+        state = {"entered": False, "flow": None}
+
+        def body(val):
+            state["entered"] = True
+            if it.optional_vars is not None:
+                self.assign(it.optional_vars, val, env)
+            try:
+                if len(s.items) == 1:
+                    self.exec_block(s.body, env)
+                else:
+                    inner = ast.With(items=s.items[1:], body=s.body)
+                    ast.copy_location(inner, s)
+                    self.exec(inner, env)
+            except (_Return, _Break, _Continue) as flow:
+                # leaving the with-body by return/break/continue is a normal exit for the context manager
+                state["flow"] = flow
+        fval = self.eval(ce.func, env)
+        args, kwargs = [], {}
+        for a in ce.args:
+            if isinstance(a, ast.Starred):
+                args.extend(self.iterate(self.eval(a.value, env)))
+            else:
+                args.append(self.eval(a, env))
+        for k in ce.keywords:
+            if k.arg is None:
+                kwargs.update(self.eval(k.value, env))
+            else:
+                kwargs[k.arg] = self.eval(k.value, env)
+        self._pending_cm_hook = body
+        try:
+            self.call(fval, args, kwargs, norm(ce))
+        finally:
+            self.__dict__.pop("_pending_cm_hook", None)
+        if not state["entered"]:
+            raise AbsRaise("RuntimeError: generator didn't yield")
+        if state["flow"] is not None:
+            raise state["flow"]
+        return True
 
     def tb_here(self, exc, env):
         """Traceback model (only for exception objects that ask for it with a `__tb_tracking__` attribute): like the
@@ -400,7 +464,13 @@ class Interp:
             if isinstance(s.value, ast.Constant):
                 return
             if isinstance(s.value, ast.Yield):
-                env.lookup("__yield__")[1].append(self.eval(s.value.value, env) if s.value.value is not None else None)
+                val_ = self.eval(s.value.value, env) if s.value.value is not None else None
+                hk_env, hook = env.lookup("__cm_hook__")
+                if hk_env is not None and hook is not None:
+                    hk_env.vars["__cm_hook__"] = None  # a context manager yields once
+                    hook(val_)
+                    return
+                env.lookup("__yield__")[1].append(val_)
                 return
             self.eval(s.value, env)
         elif isinstance(s, ast.Assign):
@@ -494,6 +564,8 @@ class Interp:
                     self.exec_block(s.orelse, env)
             finally:
                 self.exec_block(s.finalbody, env)
+        elif isinstance(s, ast.With) and self._with_repo_contextmanager(s, env):
+            pass  # handled (see _with_repo_contextmanager)
         elif isinstance(s, ast.With):
             exits = []
             try:
